@@ -991,10 +991,13 @@ class C19(Property):
         finally:
             close()
 
-    def drain_jsonl(self, content, mode, ign, reverse, pre=0, rel_seek=None):
+    def drain_jsonl(self, content, mode, ign, reverse, pre=0, rel_seek=None, resume=None):
+        """objects yielded by a plain loop and the exception that ended it; with resume=[] also every next()
+        result when the caller goes on after each error (appended to the list: ['o', obj] / ['e', name])"""
         from boltons.jsonutils import JSONLIterator
         f, close = self.open_file(content, mode)
         objs = []
+        first_exc = None
         try:
             if pre:
                 f.read(pre)
@@ -1002,14 +1005,32 @@ class C19(Property):
                 it = JSONLIterator(f, ignore_errors=bool(ign), reverse=reverse)
             else:
                 it = JSONLIterator(f, ignore_errors=bool(ign), reverse=reverse, rel_seek=rel_seek)
-            try:
-                for o in it:
+            cap = len(content) + 5
+            n = 0
+            while True:
+                n += 1
+                if n > cap:
+                    if first_exc is None:
+                        first_exc = 'TooManyObjects'
+                    break
+                try:
+                    o = next(it)
+                except StopIteration:
+                    break
+                except CaseTimeout:
+                    raise
+                except Exception as e:
+                    if first_exc is None:
+                        first_exc = exc_name(e)
+                    if resume is None:
+                        break
+                    resume.append(['e', exc_name(e)])
+                    continue
+                if first_exc is None:
                     objs.append(o)
-                    if len(objs) > len(content) + 5:
-                        return objs, 'TooManyObjects'
-            except Exception as e:
-                return objs, exc_name(e)
-            return objs, None
+                if resume is not None:
+                    resume.append(['o', o])
+            return objs, first_exc
         finally:
             close()
 
@@ -1054,10 +1075,15 @@ class C19(Property):
                     return {'fwd': fo, 'fexc': fe, 'rev': ro, 'rexc': re_, 'all': ao, 'aexc': ae}
                 if k == 'jl':
                     c = content(case)
-                    fo, fe = self.drain_jsonl(c, case['mode'], case['ign'], False)
+                    fa = None if case['ign'] else []
+                    ra = None if case['ign'] else []
+                    fo, fe = self.drain_jsonl(c, case['mode'], case['ign'], False, resume=fa)
                     # reverse mode starts from the end wherever the file position was
-                    ro, re_ = self.drain_jsonl(c, case['mode'], case['ign'], True, case.get('pre', 0))
-                    return {'fwd': fo, 'fexc': fe, 'rev': ro, 'rexc': re_}
+                    ro, re_ = self.drain_jsonl(c, case['mode'], case['ign'], True, case.get('pre', 0), resume=ra)
+                    obs = {'fwd': fo, 'fexc': fe, 'rev': ro, 'rexc': re_}
+                    if fa is not None:
+                        obs['fall'], obs['rall'] = fa, ra
+                    return obs
         except CaseTimeout:
             self._timeouts += 1
             return {'exc': 'CaseTimeout'}
@@ -1101,7 +1127,12 @@ class C19(Property):
         if k in ('jl', 'js'):
             def run(objs, e):
                 return (','.join(self.show_obj(o) for o in objs) if objs else '[]') + ('!' + e if e else '')
-            return 'F' + run(obs['fwd'], obs['fexc']) + ' R' + run(obs['rev'], obs['rexc'])
+            out = 'F' + run(obs['fwd'], obs['fexc']) + ' R' + run(obs['rev'], obs['rexc'])
+            if k == 'jl' and 'fall' in obs:
+                def allres(rs):
+                    return ','.join(self.show_obj(x[1]) if x[0] == 'o' else '!' + x[1] for x in rs) if rs else '[]'
+                out += ' A' + allres(obs['fall']) + ' B' + allres(obs['rall'])
+            return out
         return '?'
 
     # ------------------------------------------------------------------ oracle (independent of the model)
